@@ -814,7 +814,7 @@ impl<'c> Exec<'c> {
         // its own and has to make progress within the budget
         let mut clock = FaultClock::new(interrupt, self.case.budget.saturating_mul(4));
         let progress = clock.progress.clone();
-        clock.total_cap = self.case.budget.saturating_mul(12);
+        clock.total_cap = self.case.budget.saturating_mul(6);
         let mut got: Vec<Vec<i32>> = vec![];
         let mut finished = false;
         let mut unknown = false;
